@@ -280,7 +280,9 @@ func TestC06_Analysis(t *testing.T) {
 				t.Fatalf("%s", msg)
 			}
 			rec.Label("fresh-process-batches")
-			history = append(history, batchTexts...)
+			if len(history) < 300000 { // (a stored case keeps at most the first 300 000 texts of the process)
+				history = append(history, batchTexts...)
+			}
 			batchTexts, batchHere = nil, nil
 		}
 		enh := a.GetEnhancedKeywords()
